@@ -13,7 +13,16 @@ Ties (re-run on every check):
      scenarios: all 8 single-bit flips) is altered and fed to the receiver in the state in which it
      is about to receive the genuine packet: no event, no output, no visible state change, then the
      genuine packet must be accepted; finally a packet protected by the reference is accepted by
-     the real endpoint."""
+     the real endpoint;
+ (d) key phases (coq/model/KeyPhase.v, exec_keyphase): two real CryptoPairs back to back run the model's events (local update
+     request, send, delivery of any earlier packet, injected inauthentic packets) -- verdicts and (generation, phase, pending
+     flag) of both pairs token by token; a rejected packet must leave the pair's complete attribute digest unchanged, and a pair's
+     digest must equal that of a pair brought to the same abstract state by local updates alone (the model's state is ALL the
+     state there is) -- harness/props/c02_keyphase.py;
+ (e) no LATER effect (harness/props/c02_twin.py): paired deterministic runs on harness/sim with and without one inauthentic
+     packet; the whole continuation (key updates of both sides in both orders over several generations, connection-id changes,
+     data) must be identical on the wire, in the events and in the accept/drop record; complete state digests of the packet
+     protection objects (every altered copy) and of the whole connection (every packet once the handshake is confirmed)."""
 import collections
 import datetime
 import io
@@ -23,13 +32,20 @@ import time
 
 from vlib import core, corr
 from . import c02_ref as R
+from . import c02_twin as T
+from . import c02_keyphase as K
 
-DEPENDS = ["PacketNumber", "Protect", "PnGen", "PacketNumberProofs", "ProtectProofs", "Base", "Tok", "C02"]
+DEPENDS = ["PacketNumber", "Protect", "KeyPhase", "PnGen", "PacketNumberProofs", "ProtectProofs", "KeyPhaseProofs", "Base", "Tok", "C02"]
 TRUSTED_BASE = [
     "extraction (ExtrOcamlBasic only; Z kept as the extracted inductive) + coq/extract/driver.ml for running the models",
     "harness/props/c02.py + c02_ref.py (independent RFC 9001/9369 implementation; decides what 'agree' means) and the "
     "`cryptography` package primitives (AES-GCM, ChaCha20-Poly1305, AES-ECB, ChaCha20, HMAC) used as oracles",
     "tools/gen/c02_pure.py (Python-ast -> Gallina translator for decode_packet_number; fails closed)",
+    "harness/sim (Pair, deterministic os.urandom / key generation / virtual time) for the paired runs; c02_twin.digest walks instance "
+    "dictionaries (an object keeping state outside its __dict__ -- C extension, module global -- is only seen through behaviour: "
+    "AEAD/HeaderProtection by a probe encryption, everything else by the paired-run continuation)",
+    "modelled, not verified: crypto.py's key-phase handling (CryptoContext.decrypt_packet's choice of keys, next_key_phase, "
+    "apply_key_phase, CryptoPair.update_key/_update_key/key_phase) as coq/model/KeyPhase.v with key material abstracted to its generation",
     "modelled, not verified: _crypto.c AEAD nonce / HeaderProtection_apply / _remove and crypto.py "
     "CryptoContext.encrypt_packet / decrypt_packet as Gallina functions; key derivation (HKDF labels, salts) is tied only "
     "by the differential and the RFC vectors, not modelled in Coq; OpenSSL is outside",
@@ -37,12 +53,17 @@ TRUSTED_BASE = [
 ASSUMPTIONS = [
     "H-AEAD (Section hypotheses of altered_rejected / retry_tag_binds): open k n a c = Some p <-> c = seal k n a p "
     "(ideal AEAD; the real forgery probability is 2^-128, not 0)",
+    "key_generations_in_step / genuine_packet_verdict / fresh_packet_accepted: an endpoint requests a key update only while it is not "
+    "ahead of its peer (RFC 9001 6.1; aioquic leaves that to the application) and injected packets are inauthentic (ideal AEAD)",
     "the header-protection mask is an arbitrary function of the hp key and the 16-byte sample (Section variable)",
     "hp_roundtrip is stated for packets whose sample lies inside the packet (pn length + ciphertext >= 20) and "
     "total length <= 1500: outside that _crypto.c reads/writes out of bounds (property C04)",
 ]
 
 MOD64 = 1 << 64
+# QuicNetworkPath.bytes_received counts every datagram on a not yet validated path, authentic or not (RFC 9000 8.1: the
+# anti-amplification credit is defined that way); the only attribute excluded from the whole-connection digest besides the logs
+HANDSHAKE_SKIP = ("bytes_received",)
 PN_MAX = 1 << 62
 
 # Findings of this check on the pinned tree.  They belong in the shared known_findings.json (see
@@ -732,6 +753,7 @@ class Scenario:
         self.aborted = False
         self.sample = None
         self.reported = collections.Counter()
+        self.seen_types = collections.Counter()
 
     def make(self):
         from aioquic.quic.configuration import QuicConfiguration
@@ -835,8 +857,18 @@ class Scenario:
         st = self.stats
         conn = x.conn
         s0 = snap(conn)
+        f0 = T.crypto_fast(conn)                 # protection state, every attribute (per altered copy)
+        c0 = T.crypto_digest(conn, deep=True)    # the same, recursively and by behaviour (per packet)
+        # everything the connection holds except its logs (per packet); not for a server that has seen nothing yet (it builds its
+        # receive machinery on the first datagram, before authentication: "fresh_server_setup" below)
+        w0 = None if (x.is_server and s0["state"] == "FIRSTFLIGHT") else T.conn_digest(conn, also_skip=HANDSHAKE_SKIP)
+        seen_before = self.seen_types[(direction, p["type"])]
+        self.seen_types[(direction, p["type"])] += 1
         for pos in range(len(raw)):
-            masks = [1 << b for b in range(8)] if self.allbits else [self.rng.randrange(1, 256)]
+            # all 8 single-bit flips: everywhere in the first packet of each (direction, type), afterwards in the header
+            # region and the tag; the interior of later packets of the same type gets one random mask per byte
+            full = self.allbits and (seen_before == 0 or pos < 48 or pos >= len(raw) - 16)
+            masks = [1 << b for b in range(8)] if full else [self.rng.randrange(1, 256)]
             for m in masks:
                 b = bytearray(raw)
                 b[pos] ^= m
@@ -884,6 +916,7 @@ class Scenario:
                     x.pending += [d for d, _ in out]
                     st["key_unavailable_probe"] += 1
                     s0, out, diff = s1, [], {}
+                    w0 = None        # the one allowed reaction (declares its Initial lost, retransmits): not compared for this packet
                 if ev is not None or out or diff:
                     case = self.case_of(x, direction, p["type"], idx, pos, m, raw)
                     what = "altered %s packet (byte %d xor 0x%02x) was not discarded silently: drop triggers=%s event=%s datagrams=%d state changes=%s" % (
@@ -891,6 +924,34 @@ class Scenario:
                     self.violation(what, {"site": "receive_datagram", "rule": "altered-accepted", "type": p["type"]}, case)
                     self.aborted = True
                     return
+                if T.crypto_fast(conn) != f0:
+                    if st["fresh_server_setup"] and x.is_server and s1["state"] == "FIRSTFLIGHT":
+                        f0, c0 = T.crypto_fast(conn), T.crypto_digest(conn, deep=True)    # (re)created Initial keys of a fresh server
+                        continue
+                    case = self.case_of(x, direction, p["type"], idx, pos, m, raw)
+                    d = T.digest_diff(c0, T.crypto_digest(conn, deep=True)) or ["an attribute object was replaced by an equal one"]
+                    self.violation("altered %s packet (byte %d xor 0x%02x) was dropped (%s) but changed the receiver's packet protection state: %s"
+                                   % (p["type"], pos, m, triggers, "; ".join(d)),
+                                   {"site": "decrypt_packet", "rule": "rejected-packet-changed-crypto-state", "type": p["type"]}, case)
+                    st["crypto_state_changed"] += 1
+                    self.aborted = True
+                    return
+        st["crypto_digests"] += 1
+        c1 = T.crypto_digest(conn, deep=True)
+        if c1 != c0:
+            self.violation("the altered copies of a %s packet changed the receiver's packet protection state: %s" % (p["type"], "; ".join(T.digest_diff(c0, c1))),
+                           {"site": "decrypt_packet", "rule": "rejected-packet-changed-crypto-state", "type": p["type"]},
+                           self.case_of(x, direction, p["type"], idx, None, None, raw))
+            self.aborted = True
+            return
+        if w0 is not None:
+            st["connection_digests"] += 1
+            w1 = T.conn_digest(conn, also_skip=HANDSHAKE_SKIP)
+            if w1 != w0:
+                self.violation("the altered copies of a %s packet changed the receiver's state: %s" % (p["type"], "; ".join(T.digest_diff(w0, w1))),
+                               {"site": "receive_datagram", "rule": "rejected-packet-changed-state", "type": p["type"]},
+                               self.case_of(x, direction, p["type"], idx, None, None, raw))
+                self.aborted = True
 
     def gen_of(self, x):
         """number of key updates the endpoint has performed (observer's view of what it SENT)"""
@@ -1005,7 +1066,7 @@ def run_connection(ctx, known, cov):
             for s in SUITE_NAMES:
                 plan.append(("v%d-%s-all" % (v, s), v, s, True, v == 2, True))
     samples = []
-    control = None
+    events_of = {}
     for name, v, s, allbits, retry, ku in plan:
         if ctx.budget_scale < 0.2 and len(samples) >= 2:
             break
@@ -1020,15 +1081,14 @@ def run_connection(ctx, known, cov):
                           extra={"traceback": traceback.format_exc()[-2000:]})
             continue
         samples.append({"scenario": name, "client_events": sc.events[0][:6], "server_events": sc.events[1][:6]})
-    # control run without mutants: same event sequences
+        events_of[name] = sc.events
+    # control run without mutants: same event sequences as the run of the same configuration with all its altered copies
     for name, v, s, allbits, retry, ku in plan[:2]:
         a = Scenario(ctx, known, collections.Counter(), name + "-control", v, s, False, retry=retry, key_update=ku, mutate=False)
-        b = Scenario(ctx, known, collections.Counter(), name + "-recheck", v, s, False, retry=retry, key_update=ku, mutate=True)
         a.run()
-        b.run()
-        if a.events != b.events:
+        if name in events_of and a.events != events_of[name]:
             ctx.violation("impl-violation", "connection[%s]: event sequence with interleaved altered packets differs from the control run: %s vs %s"
-                          % (name, b.events, a.events), {"scenario": name}, signature={"site": "scenario", "rule": "control-differs"})
+                          % (name, events_of[name], a.events), {"scenario": name}, signature={"site": "scenario", "rule": "control-differs"})
         st["control_runs"] += 1
     cov["connection"] = {k: v for k, v in sorted(st.items())}
     cov["connection"]["wall_s"] = round(time.time() - t0, 2)
@@ -1036,18 +1096,98 @@ def run_connection(ctx, known, cov):
     return st
 
 
+
+# ------------------------------------------------------------------------------------ long-sighted oracles
+def twin_cases(ctx):
+    """Groups of paired runs: (seed, version, suite, receiver, plan) x kinds of inauthentic packet."""
+    rng = ctx.rng
+    n_sys = 20                                   # 4 continuation skeletons x 5 prefixes (all key-update orders)
+    n_rand = ctx.n(24, 160)
+    if ctx.budget_scale < 0.2:
+        n_sys, n_rand = 8, 4
+    groups = []
+    i = 0
+    for recv in ("server", "client"):
+        for si in list(range(n_sys)) + [None] * (n_rand // 2):
+            plan = T.gen_plan(rng, recv, systematic=si)
+            kinds = list(T.KINDS)
+            if any(o.endswith(".ku") for o in plan["prefix"]):
+                kinds += ["old:0", "old:1"]      # genuine packets of a generation the receiver has left
+            if si is None:                       # random plans: a random half of the kinds (bit 2 = key phase always)
+                kinds = ["bit0:2"] + rng.sample(kinds[1:], 5)
+            groups.append({"twin": True, "seed": rng.randrange(1 << 30), "version": 1 + i % 2, "suite": SUITE_NAMES[i % 3], "plan": plan,
+                           "kinds": kinds, "irng": rng.randrange(1 << 30)})
+            i += 1
+    return groups
+
+
+def run_twin(ctx, known, cov):
+    import sim  # noqa: F401  (imported here: the overlay of the tree under check is active now)
+    st = collections.Counter()
+    t0 = time.time()
+    reported = collections.Counter()
+    for g in twin_cases(ctx):
+        try:
+            res = T.run_group(g, _aq_suite)
+        except Exception as e:
+            import traceback
+            st["exceptions"] += 1
+            if st["exceptions"] <= 2:
+                ctx.violation("impl-violation", "twin: paired run raised %r" % (e,), dict(g), signature={"site": "twin", "exception": type(e).__name__},
+                              extra={"traceback": traceback.format_exc()[-2000:]})
+            continue
+        st["groups"] += 1
+        for kind, problems, info in res:
+            st["runs"] += 1
+            if info.get("skipped"):
+                st["skipped"] += 1
+                continue
+            if info.get("replay_accepted"):
+                st["replay_of_openable_packet"] += 1
+                continue
+            st["rejected_" + (info.get("drop") or ["?"])[0]] += 1
+            st["continuation_datagrams"] += info.get("packets_after", 0)
+            st["continuation_key_updates"] += info.get("key_updates", 0)
+            st["control_run_drops"] += info.get("control_drops", 0)
+            for rule, text in problems:
+                st["violations"] += 1
+                reported[rule] += 1
+                if reported[rule] <= 2:
+                    case = dict(g, kinds=[kind])
+                    res2 = known.filter(("twin[%s %s, receiver %s]: %s" % (g["suite"], "v%d" % g["version"], g["plan"]["receiver"], text),
+                                         {"site": "receive_datagram", "rule": "rejected-packet-" + rule}), case)
+                    if res2:
+                        ctx.violation("impl-violation", res2[0], case, signature=res2[1], extra={"injected": info.get("injected"), "plan": g["plan"]})
+    cov["twin"] = {k: v for k, v in sorted(st.items())}
+    cov["twin"]["wall_s"] = round(time.time() - t0, 2)
+    return st
+
+
+def kp_oracle(case):
+    pr = K.trace(_SELF, case)[2]
+    if pr:
+        return ("%s [ops %s]" % (pr[0][1], case.get("macros") or case["ops"]), {"site": "CryptoPair.decrypt_packet", "rule": "keyphase-" + pr[0][0]})
+    return None
+
+
+import sys as _sys
+_SELF = _sys.modules[__name__]
+
 # ------------------------------------------------------------------------------------ driver
 def suites(ctx, known):
     pn = corr.Suite(ctx, "pn", "exec_pn", pn_encode, pn_impl, pn_oracle,
                     nontrivial=lambda c, out: c["n"] in (8, 16, 24, 32) and 0 <= c["t"] < (1 << c["n"]))
     pt = corr.Suite(ctx, "protect", "exec_protect", pt_encode, pt_impl,
                     lambda c: known.filter(pt_oracle_raw(c), c), nontrivial=pt_nontrivial)
-    return pn, pt
+    kp = corr.Suite(ctx, "keyphase", "exec_keyphase", lambda c: K.trace(_SELF, c)[1], lambda c: K.trace(_SELF, c)[0],
+                    lambda c: known.filter(kp_oracle(c), c), ops=lambda c: c["ops"], rebuild=lambda c, ops: dict(c, ops=ops, macros=None),
+                    nontrivial=lambda c, out: any(o[0] in (3, 4) for o in c["ops"]), opname=lambda o: {1: "request", 2: "send", 3: "deliver"}.get(o[0]) or "inject-" + o[2][0])
+    return pn, pt, kp
 
 
 def run(ctx):
     known = Known(ctx)
-    pn, pt = suites(ctx, known)
+    pn, pt, kp = suites(ctx, known)
     extra = {}
     run_vectors(ctx, known, extra)
     pn.run(corr.load_corpus("C02", "pn"), "corpus")
@@ -1066,30 +1206,42 @@ def run(ctx):
         pt.stats["op_histogram"][kind] = sum(1 for c in cases if c["kind"] == kind)
     for c in cases:
         pt.stats["outcome_histogram"]["%s/v%d/pnl%d/phase%s%s" % (c["suite"][:7], c["version"], c["pnl"], c["sphase"], "/corrupt" if c.get("corrupt") else "")] += 1
+    kp.run(corr.load_corpus("C02", "keyphase"), "corpus")
+    kcases = K.gen_cases(_SELF, rng, ctx.n(1500, 12000), 3 if not ctx.thorough else 4)
+    kp.run(kcases)
+    for c in kcases:
+        kp.stats["outcome_histogram"]["max-generation-%d" % max([0] + [t for t in K.trace(_SELF, c)[0][-10:] if isinstance(t, int)])] += 1
     st = run_connection(ctx, known, extra)
+    tw = run_twin(ctx, known, extra)
     extra["known_finding_cases"] = dict(known.hits)
     extra["implementation_variant"] = {"v2_key_update_label": (probe()["v2_ku_label"] or b"quicv2 ku").decode(),
                                        "truncated_pn_signed": probe()["signed_pn"]}
     extra["exhaustive_small_scope"] = "decode_packet_number: all 256 truncated values x %d expected values (8-bit encoding)" % len(es)
     cov = corr.merge_coverage(
-        [pn, pt],
+        [pn, pt, kp],
         "pn: boundary tables + random (expected, truncated, width) and all 256 truncated values for ranges of expected around 0, "
         "2^32 and 2^62; protect: tuples (kind in hp-apply/hp-remove/nonce/encrypt/decrypt, suite, version, key phases of sender and "
         "receiver, header form and length, pn length, payload size 0..max, pn, expected pn, optional single-byte corruption) with bytes "
         "derived from a per-case seed; connection: live flights with every byte (bit) of every packet altered; distinct = distinct token "
         "encoding, non-trivial = in the property's domain / produces a packet",
         extra)
-    cov["evaluations"] += st["mutants"] + st["genuine"] + extra.get("rfc_vectors", 0)
-    cov["distinct_nontrivial"] += st["mutants"]
+    cov["evaluations"] += st["mutants"] + st["genuine"] + extra.get("rfc_vectors", 0) + tw["runs"]
+    cov["distinct_nontrivial"] += st["mutants"] + tw["runs"] - tw["skipped"]
     return cov
 
 
 def replay(ctx, rep):
     known = Known(ctx)
-    pn, pt = suites(ctx, known)
+    pn, pt, kp = suites(ctx, known)
     case = rep["case"]
     res = {}
-    if isinstance(case, dict) and "kind" in case:
+    if isinstance(case, dict) and case.get("twin"):
+        import sim  # noqa: F401
+        res["twin"] = [{"kind": k, "problems": pr, "info": info} for k, pr, info in T.run_group(case, _aq_suite)]
+    elif isinstance(case, dict) and "ops" in case:
+        d, e, g = kp.disagree(case)
+        res["keyphase"] = {"disagree": d, "impl": e, "model": g, "oracle": kp_oracle(case)}
+    elif isinstance(case, dict) and "kind" in case:
         d, e, g = pt.disagree(case)
         res["protect"] = {"disagree": d, "impl": e[:60], "model": g[:60], "oracle": pt_oracle_raw(case)}
     elif isinstance(case, dict) and "t" in case:
